@@ -128,8 +128,8 @@ Lemma frobenius_constants :
   alpha4 = fmul alpha3 alpha1 /\ alpha5 = fmul alpha4 alpha1 /\ fmul alpha5 alpha1 = p - 1 /\ beta = alpha3.
 Proof. split; [| split; [| split; [| split; [| split; [| split]]]]]; vm_compute; reflexivity. Qed.
 
-(* the Impl values stay in [0,p]: they fit the 256-bit limbs of the C code, p being the only
-   non-canonical representative that can appear *)
+(* the Impl values stay in [0,p] (they fit the 256-bit limbs), and canonical operands [0,p) give
+   canonical results: since c2dbe37 no operation turns canonical input into the non-canonical zero p *)
 Lemma fp_range : forall x y : Z, 0 <= x <= p -> 0 <= y <= p ->
   0 <= fadd x y <= p /\ 0 <= fsub x y <= p /\ 0 <= fneg x <= p /\ 0 <= fhaf x <= p /\ 0 <= fmul x y < p.
 Proof.
@@ -137,9 +137,38 @@ Proof.
   unfold fadd, fsub, fneg, fhaf, fmul. cbv zeta.
   destruct (p <=? x + y) eqn:E1; [apply Z.leb_le in E1 | apply Z.leb_gt in E1];
   (destruct (x <? y) eqn:E2; [apply Z.ltb_lt in E2 | apply Z.ltb_ge in E2]);
+  (destruct (p <=? p - x) eqn:E3; [apply Z.leb_le in E3 | apply Z.leb_gt in E3]);
   pose proof (Z.mod_pos_bound (x * y) p Hp);
   (destruct (Z.odd x);
    [ pose proof (Z.div_mod (x + p) 2 ltac:(lia)); pose proof (Z.mod_pos_bound (x + p) 2 ltac:(lia))
    | pose proof (Z.div_mod x 2 ltac:(lia)); pose proof (Z.mod_pos_bound x 2 ltac:(lia)) ]);
   repeat split; lia.
+Qed.
+Lemma fp_canonical : forall x y : Z, 0 <= x < p -> 0 <= y < p ->
+  0 <= fadd x y < p /\ 0 <= fsub x y < p /\ 0 <= fneg x < p /\ 0 <= fhaf x < p /\ 0 <= fmul x y < p.
+Proof.
+  intros x y Hx Hy. pose proof p_pos as Hp. pose proof p_odd as Ho.
+  unfold fadd, fsub, fneg, fhaf, fmul. cbv zeta.
+  destruct (p <=? x + y) eqn:E1; [apply Z.leb_le in E1 | apply Z.leb_gt in E1];
+  (destruct (x <? y) eqn:E2; [apply Z.ltb_lt in E2 | apply Z.ltb_ge in E2]);
+  (destruct (p <=? p - x) eqn:E3; [apply Z.leb_le in E3 | apply Z.leb_gt in E3]);
+  pose proof (Z.mod_pos_bound (x * y) p Hp);
+  (destruct (Z.odd x);
+   [ pose proof (Z.div_mod (x + p) 2 ltac:(lia)); pose proof (Z.mod_pos_bound (x + p) 2 ltac:(lia))
+   | pose proof (Z.div_mod x 2 ltac:(lia)); pose proof (Z.mod_pos_bound x 2 ltac:(lia)) ]);
+  repeat split; lia.
+Qed.
+
+(* inversion after negation (the case that returned 0 before c2dbe37): an element whose a2 is
+   the zero of the bitwise test keeps such an a2 under fp12_neg, and its negation is inverted
+   correctly under the same norm condition as the element itself *)
+Lemma fp12_inv_neg : prime p -> forall a : T12,
+  I4is_zero (c2 a) = true -> norm4 (D12 a) mod p <> 0 ->
+  I4is_zero (c2 (I12neg a)) = true /\
+  canon12 (I12mul (I12neg a) (I12inv (I12neg a))) = canon12 S12one.
+Proof.
+  intros Hp a Hz Hn. split.
+  - destruct a as [[a0 a1] a2]. unfold I12neg, c2 in *; cbn [fst snd] in *. apply I4neg_zero; exact Hz.
+  - apply rel12_canon. eapply rel12_trans; [apply I12mul_ok; apply r12 |].
+    apply (I12inv_neg_ok (fermat_little p Hp) a Hz Hn).
 Qed.
